@@ -1,4 +1,4 @@
-from planlib import geo
+from planlib import geo, desc_fuzz
 
 OPS1 = ["vec_znx_copy", "vec_znx_negate", "vec_znx_add", "vec_znx_sub", "vec_znx_rotate", "vec_znx_automorphism",
         "vec_znx_big_add", "vec_znx_big_add_small", "vec_znx_big_add_small2", "vec_znx_big_sub", "vec_znx_big_sub_small_a",
@@ -30,6 +30,7 @@ PLAN = dict(
          "Non-trivial: aliased and (res_size != size of the aliased input, or p != 0,1 mod 2N; idft: both sizes >= 1; fftvec: m >= 2).",
     assumptions=["aliasing means same pointer and same stride (statement); partial overlaps are out of the domain"],
     quick=_jobs("quick"), thorough=_jobs("thorough"),
+    fuzz=desc_fuzz("C13", fix=dict(k=(1, 10), kN=(1, 8), logm=(0, 10))),
     required_classes=dict(all=["op:" + o for o in OPS1] + ["alias:1", "alias:2", "alias:3", "res_size!=aliased_size", "module:NTT120",
                                "cfg:generic", "op:vec_znx_normalize_base2k", "op:vec_znx_big_normalize_base2k",
                                "op:vec_znx_idft:FFT64", "op:vec_znx_idft:NTT120", "op:vec_znx_idft_tmp_a:FFT64", "op:vec_znx_idft_tmp_a:NTT120"]
